@@ -16,12 +16,11 @@ def replay(spec):
     from bioscrape.sbmlutil import import_sbml
     from bioscrape.simulator import ModelCSimInterface
     sp = C13gen.spec_for(spec["index"], spec.get("seed", 0))
-    doc = C13gen.build_document(sp)
     d = tempfile.mkdtemp(prefix="bioscrape-verif-c13r-", dir="/var/tmp")
     path = os.path.join(d, "m.xml")
     problems = []
     try:
-        libsbml.writeSBMLToFile(doc, path)
+        C13gen.write_document(sp, path)
         try:
             M = import_sbml(path, sbml_warnings=False)
         except Exception as e:
